@@ -85,6 +85,10 @@ func (g *histGen) attEntry(k int) Entry {
 	case 3:
 		e.KeyPad = 1 + ch.Pick(2, 0) // public key with trailing junk (resolves to the same account)
 	}
+	if comp := g.pop.Accts[k].Composite; comp != nil && ch.Pick(8, 0) == 7 {
+		// a share of a threshold key, addressed by the validator's (composite) key: this instance holds no such key
+		e.ByKey, e.Both, e.KeyPad, e.AddrKey = false, false, 0, comp
+	}
 	if ch.Pick(12, 0) == 11 {
 		e.Domain = MkDomain([4]byte{byte(2 + ch.Pick(8, 0)), 0, 0, 0}, g.uniq)
 	} else if ch.Pick(5, 0) == 4 {
